@@ -137,7 +137,7 @@ impl LocalEntityAccessControl for AccessControlBuiltin {
     topic_name: String,
     _qos: &QosPolicies,
   ) -> SecurityResult<bool> {
-    let partitions = &[]; // Partitions currently unsupported. TODO: get from PartitionQosPolicy
+    let partitions = &[""]; // The default partition. Partitions currently unsupported. TODO: get from PartitionQosPolicy
     let data_tags = &[]; // Data tagging currently unsupported. TODO: get from DataTagQosPolicy
     self.check_entity(
       permissions_handle,
@@ -156,7 +156,7 @@ impl LocalEntityAccessControl for AccessControlBuiltin {
     topic_name: String,
     _qos: &QosPolicies,
   ) -> SecurityResult<bool> {
-    let partitions = &[]; // Partitions currently unsupported. TODO: get from PartitionQosPolicy
+    let partitions = &[""]; // The default partition. Partitions currently unsupported. TODO: get from PartitionQosPolicy
     let data_tags = &[]; // Data tagging currently unsupported. TODO: get from DataTagQosPolicy
     self.check_entity(
       permissions_handle,
@@ -175,7 +175,7 @@ impl LocalEntityAccessControl for AccessControlBuiltin {
     topic_name: String,
     _qos: &QosPolicies,
   ) -> SecurityResult<bool> {
-    let partitions = &[]; // Partitions currently unsupported. TODO: get from PartitionQosPolicy
+    let partitions = &[""]; // The default partition. Partitions currently unsupported. TODO: get from PartitionQosPolicy
     let data_tags = &[]; // Data tagging currently unsupported. TODO: get from DataTagQosPolicy
     self.check_entity(
       permissions_handle,
